@@ -258,8 +258,9 @@ fn ranges_to_set(r: &BlockRanges) -> BTreeSet<u64> {
 }
 
 impl LogStore {
-    /// Moves everything the Daser has emitted so far into the log.
-    pub async fn flush(&self) {
+    /// Moves everything the Daser has emitted so far into the log; returns how many
+    /// commands were taken out of the P2p command channel.
+    pub async fn flush(&self) -> usize {
         let mut cmds = vec![];
         {
             let mut hub = self.hub.lock().unwrap();
@@ -270,6 +271,7 @@ impl LogStore {
                 cmds.push(cmd);
             }
         }
+        let n = cmds.len();
         for cmd in cmds {
             match cmd {
                 VCmd::GetShwapCid { cid, respond_to } => {
@@ -307,6 +309,7 @@ impl LogStore {
                 }
             }
         }
+        n
     }
 }
 
@@ -795,8 +798,14 @@ struct Sys {
 impl Sys {
     /// settle, then feed the oracle
     async fn settle(&mut self) {
-        tokio::time::sleep(Duration::from_millis(1)).await;
-        self.store.flush().await;
+        // The P2p command channel holds 16 commands: a Daser blocked on a full channel is
+        // not quiescent, so drain and settle again until nothing more arrives.
+        for _ in 0..256 {
+            tokio::time::sleep(Duration::from_millis(1)).await;
+            if self.store.flush().await == 0 {
+                break;
+            }
+        }
         let entries: Vec<Entry> = std::mem::take(&mut self.hub.lock().unwrap().log);
         for e in entries {
             self.m.on_entry(e);
